@@ -289,7 +289,7 @@ func (u *Upstream) run(isResume bool) error {
 	defer cancel()
 	eg, ctx := errgroup.WithContext(ctx)
 	eg.Go(func() error {
-		defer u.eventDispatcher.cond.Broadcast()
+		defer u.eventDispatcher.wake()
 		defer u.state.cond.Broadcast()
 		<-ctx.Done()
 		return nil
